@@ -269,20 +269,26 @@ def support_case(ctx, rng, idx):
     ybar = rng.uniform(0.5, 3, size=n)
     y = rng.uniform(0.5, 3, size=n)
     p = _gen_scales(rng, n_par)
-    kind = ['zero_scale', 'negative_scale', 'bad_output'][idx // 4 % 3]
-    if kind == 'bad_output' and cname != 'LogNormalErrorModel':
+    kind = ['zero_scale', 'negative_scale', 'bad_output',
+            'bad_observation'][idx // 4 % 4]
+    if kind in ('bad_output', 'bad_observation') and \
+            cname != 'LogNormalErrorModel':
         kind = 'negative_scale'
     j = int(rng.integers(n_par))
     if kind == 'zero_scale':
         p[j] = 0.0
     elif kind == 'negative_scale':
         p[j] = -p[j]
+    elif kind == 'bad_observation':
+        # a measured value outside the support of the log-normal density
+        # (0: below the limit of quantification) has density 0
+        y[int(rng.integers(n))] = [0.0, -1.0][int(rng.integers(2))]
     else:
         ybar[int(rng.integers(n))] = [0.0, -1.0][int(rng.integers(2))]
     sens = rng.normal(size=(n, width))
     feats = {'class': cname, 'kind': kind, 'n': n}
     ctx.case(('support', cname, kind, j), True, sample=dict(
-        feats, parameters=p, model_output=ybar))
+        feats, parameters=p, model_output=ybar, observations=y))
     ctx.count('support_cases')
     val = model.compute_log_likelihood(p, ybar, y)
     pw = np.asarray(model.compute_pointwise_ll(p, ybar, y))
@@ -310,5 +316,5 @@ def support_case(ctx, rng, idx):
 FAMILIES = [
     Family('density', density_case, quick=4000, thorough=100000),
     Family('normalisation', normalisation_case, quick=160, thorough=3000),
-    Family('support', support_case, quick=240, thorough=2400),
+    Family('support', support_case, quick=320, thorough=3200),
 ]
